@@ -1,10 +1,12 @@
 -------------------------- MODULE TextConflictGen --------------------------
-(* E1 + E2 for C19: TLC enumerates the cases - texts (B, T, O) as sequences of at most MaxLen lines over
+(* E1 + E2 for C19.  The per-file machine of TextConflict depends on a case only through its CLASS (merge type, scope,
+   options, resolve action): TLC explores the machine for every class with the C19 clauses as invariants (one initial
+   state per class), and enumerates the CASES = class x texts for export:  texts (B, T, O) are sequences of at most
+   MaxLen lines over
        1 = "a\n"   2 = "b\n"   3 = "<<<<<<< TREE\n" (looks like the start marker)   4 = "z" (no newline; last line only)
-   x merge options x resolve action - and, for every case, explores the per-file state machine of TextConflict with the
-   C19 clauses as invariants.  Texts of at most FullLen lines are combined with EVERY option combination and action;
-   longer ones with one combination each, rotating with the texts.  weave / lca (scope "bookkeeping"): texts of at most
-   WeaveLen lines, no show-base (not supported by these mergers). *)
+   Every triple gets one (options, cherrypick, action) combination, rotating with the texts; triples of at most FullLen
+   lines additionally get EVERY option x cherrypick combination.  weave / lca (scope "bookkeeping"): texts of at most
+   WeaveLen lines x reprocess, no show-base (not supported by these mergers). *)
 EXTENDS TextConflict, SequencesExt, Json, IOUtils
 CONSTANTS MaxLen, FullLen, WeaveLen
 
@@ -14,22 +16,27 @@ Sum(s) == FoldSeq(LAMBDA x, y : x + y, 0, s)
 Opts3 == <<[rp |-> FALSE, sb |-> FALSE], [rp |-> TRUE, sb |-> FALSE], [rp |-> FALSE, sb |-> TRUE]>>
 OptsW == <<[rp |-> FALSE, sb |-> FALSE], [rp |-> TRUE, sb |-> FALSE]>>
 Acts  == <<"take_this", "take_other", "done">>
-Case(b, t, o, mt, op, cp, a) ==
-    [b |-> b, t |-> t, o |-> o, mt |-> mt, scope |-> IF mt = "merge3" THEN "full" ELSE "bookkeeping",
-     rp |-> op.rp, sb |-> op.sb, cp |-> cp, act |-> a]
+Scope(mt) == IF mt = "merge3" THEN "full" ELSE "bookkeeping"
+Class(mt, op, cp, a) == [mt |-> mt, scope |-> Scope(mt), rp |-> op.rp, sb |-> op.sb, cp |-> cp, act |-> a]
+Classes == {Class("merge3", Opts3[k], cp, a) : k \in 1..3, cp \in BOOLEAN, a \in Range(Acts)}
+           \cup {Class(mt, OptsW[k], cp, a) : mt \in {"weave", "lca"}, k \in 1..2, cp \in BOOLEAN, a \in Range(Acts)}
+Case(b, t, o, k) == [b |-> b, t |-> t, o |-> o, mt |-> k.mt, scope |-> k.scope, rp |-> k.rp, sb |-> k.sb, cp |-> k.cp,
+                     act |-> k.act]
+ClassOf(x) == [mt |-> x.mt, scope |-> x.scope, rp |-> x.rp, sb |-> x.sb, cp |-> x.cp, act |-> x.act]
 Hash(b, t, o) == Sum(b) + 3 * Sum(t) + 7 * Sum(o) + Len(b) + 5 * Len(t) + 11 * Len(o)
+RotAct(b, t, o, n) == Acts[((Hash(b, t, o) \div (2 * n)) % 3) + 1]
 Rot(b, t, o, mt, opts) == LET h == Hash(b, t, o) IN
-    Case(b, t, o, mt, opts[(h % Len(opts)) + 1], ((h \div Len(opts)) % 2) = 1, Acts[((h \div (2 * Len(opts))) % 3) + 1])
+    Case(b, t, o, Class(mt, opts[(h % Len(opts)) + 1], ((h \div Len(opts)) % 2) = 1, RotAct(b, t, o, Len(opts))))
 Cases ==
          {Rot(b, t, o, "merge3", Opts3) : b \in Texts(MaxLen), t \in Texts(MaxLen), o \in Texts(MaxLen)}
-    \cup {Case(b, t, o, "merge3", Opts3[k], cp, a) :
-              b \in Texts(FullLen), t \in Texts(FullLen), o \in Texts(FullLen), k \in 1..3, cp \in BOOLEAN, a \in Range(Acts)}
-    \cup UNION {{Case(b, t, o, mt, OptsW[k], cp, Rot(b, t, o, mt, OptsW).act) :
-                   b \in Texts(WeaveLen), t \in Texts(WeaveLen), o \in Texts(WeaveLen), k \in 1..2, cp \in BOOLEAN}
+    \cup {Case(b, t, o, Class("merge3", Opts3[k], cp, RotAct(b, t, o, 3))) :
+              b \in Texts(FullLen), t \in Texts(FullLen), o \in Texts(FullLen), k \in 1..3, cp \in BOOLEAN}
+    \cup UNION {{Case(b, t, o, Class(mt, OptsW[k], ((Hash(b, t, o) \div 2) % 2) = 1, RotAct(b, t, o, 2))) :
+                   b \in Texts(WeaveLen), t \in Texts(WeaveLen), o \in Texts(WeaveLen), k \in 1..2}
                : mt \in {"weave", "lca"}}
 
 VARIABLE c
-Init == c \in Cases /\ st = S0
+Init == c \in Classes /\ st = S0
 Next == /\ UNCHANGED c
         /\ \/ \E h \in BOOLEAN : TextMerge(h)
            \/ Resolve(c.act)
@@ -49,9 +56,11 @@ LawsHoldOnSpec ==
 \* anti-vacuity witnesses: TLC must find these states
 WitnessTakeOther  == ~(st.phase = "resolved" /\ st.file = "other" /\ c.cp /\ c.rp)
 WitnessDoneKeeps  == ~(st.phase = "resolved" /\ st.file = "marked" /\ c.sb)
-WitnessLookalike  == ~(st.phase = "merged" /\ ~st.rec /\ 3 \in Range(c.t) /\ 4 \in Range(c.o) /\ c.t # c.b /\ c.o # c.b)
+WitnessCleanMerge == ~(st.phase = "merged" /\ ~st.rec /\ c.mt = "merge3" /\ c.cp)
 WitnessWeave      == ~(st.phase = "resolved" /\ c.mt = "lca" /\ c.act = "take_this")
 
+\* every exported case belongs to a class the machine was explored for
+ASSUME "VF_OUT" \in DOMAIN IOEnv => {ClassOf(x) : x \in Cases} \subseteq Classes
 Export == JsonSerialize(IOEnv.VF_OUT, SetToSeq(Cases))
 ASSUME IF "VF_OUT" \in DOMAIN IOEnv THEN Export ELSE TRUE
 =============================================================================
